@@ -210,6 +210,10 @@ def run(tier, seed, only=None):
                                                                               ("L-BFGS-B", "trust-exact"), ("CG", "iminuit"), ("trust-exact", "iminuit"), ("trust-krylov", "CG")]
         for a, b in pairs:
             hist.append(("two_sided", 1, ((a, 3), (b, None))))
+        # a CONVERGED first fit followed by another minimiser (the second one must not end above where it started)
+        for a, b in (("Newton-CG", "iminuit"), ("trust-ncg", "L-BFGS-B"), ("BFGS", "Newton-CG"), ("iminuit", "trust-exact")):
+            hist.append(("two_sided", 1, ((a, None), (b, None))))
+        hist.append(("tied", 1, (("Newton-CG", None), ("BFGS", None))))
     else:
         for m in METHODS:
             for c in cs:
@@ -219,6 +223,8 @@ def run(tier, seed, only=None):
         for a, b in itertools.product(METHODS, repeat=2):
             for c in ("two_sided", "gauss", "tied"):
                 hist.append((c, 1, ((a, 3), (b, None))))
+            if not (a.endswith("-p") or b.endswith("-p")):
+                hist.append(("two_sided", 1, ((a, None), (b, None))))
     if seed:
         k = seed % len(hist)
         hist = hist[k:] + hist[:k]
